@@ -284,7 +284,7 @@ func c11Run(ctx *Ctx, c c11Case) {
 
 func TestC11(t *testing.T) {
 	r := newRec("C11",
-		"a case is one generated expression tree (typed-ish generator over all 13 precedence levels, every table function, parenthesised sub-terms, root type names in every position; 8% get an unsupported operator | in contains ~ !~) rendered minimally parenthesised per the N1 precedence table, fully parenthesised and decorated with gaps from {' ','\\n','\\t','\\r','\\r\\n','/* c */','/**/','// c' ended by \\n, \\r or \\r\\n}; oracles: the real parse tree of every rendering equals the generated tree, all renderings compile alike and evaluate to the same outcome on the fixture Patient + variables, String() is the source, a trailing token makes Compile fail; non-trivial = compiled, minimal ≠ full rendering, and the tree mixes ≥ 2 binary/type levels or has a polarity/invocation/indexer applied to a compound operand; distinct = FNV-64 of (min, decorated)",
+		"a case is one generated expression tree (typed-ish generator over all 13 precedence levels, every table function, parenthesised sub-terms, root type names in every position; 8% get an unsupported operator | in contains ~ !~) rendered minimally parenthesised per the N1 precedence table, fully parenthesised and decorated with gaps from {' ','\\n','\\t','\\r','\\r\\n','/* c */','/**/','// c' ended by \\n, \\r or \\r\\n} and, one gap in five, a generated block or line comment whose body is drawn from fragments including quotes, operators, non-ASCII text and bytes that are not UTF-8; oracles: the real parse tree of every rendering equals the generated tree, all renderings compile alike and evaluate to the same outcome on the fixture Patient + variables, String() is the source, a trailing token makes Compile fail; non-trivial = compiled, minimal ≠ full rendering, and the tree mixes ≥ 2 binary/type levels or has a polarity/invocation/indexer applied to a compound operand; distinct = FNV-64 of (min, decorated)",
 		"the N1 precedence table = alternative order of `expression` in fhirpath.g4; all binary operators left-associative")
 	runProperty(t, r, Stage[c11Case]{Name: "trees", Gen: c11Gen, Run: c11Run, N: pick(6000, 150000)})
 }
